@@ -51,10 +51,39 @@ def trace(ck, runs, first=0, tag="gp"):
     return len(rows), sum(1 for r in rows if r.get("ev") == "cutrun")
 
 
+def evo_sig(ev, prefix):
+    return f"trace:gp-evolution:{ev.get('ev')}"
+
+
+def evo_what(ev, prefix):
+    reset = next((p for p in reversed(prefix) if p.get("ev") == "reset"), {})
+    return ("a GP run assembled like examples/median (Lexicase -> GenomeExtractor -> Umad -> GenomeScorer, Generation::"
+            f"{reset.get('mode')}_next, {reset.get('threads')} threads) is not a behaviour of PushEvolution.tla: first unmatched event "
+            f"{json.dumps(ev)[:700]}; population {json.dumps(reset.get('pop'))[:700]}; addition rate {reset.get('add')} deletion rate "
+            f"{reset.get('del')} cases {json.dumps(reset.get('cases'))[:300]}")
+
+
+def evolution(ck, runs, first=0, tag="gp-evo"):
+    """the GP loop: PushEvolution.tla model-checked on a tiny universe, real runs validated"""
+    states = 0
+    if first == 0 and tag == "gp-evo":
+        for c in ("Copy", "Delete", "Add", "Both"):
+            r = ck.tlc_model("gp/MC_PushEvolution", f"gp/MC_PushEvolution_{c}.cfg", workers=4, timeout=1800, tag=f"gp-evo-{c}")
+            states += r.distinct
+    path = os.path.join(ck.work, f"{tag}-trace.ndjson")
+    ck.harness(["gp-evo-trace", "--seed", ck.seed, "--runs", runs, "--first-run", first, "--out", path], timeout=3000)
+    ck.validate_runs("gp/Trace_PushEvolution", "gp/Trace_PushEvolution.cfg", path, evo_sig, evo_what,
+                     regen=lambda ev: {"seed": ck.seed, "run": ev.get("run"), "gpevo": True}, timeout=3000)
+    return states, len(vlib.read_ndjson(path))
+
+
 def stage(ck):
     q = ck.tier == "quick"
     res, summ = model(ck)
     n, cuts = trace(ck, 500 if q else 30000)
+    estates, en = evolution(ck, 60 if q else 2500)
+    ck.cov["conformance"]["gp_evolution_model_states"] = estates
+    ck.cov["conformance"]["gp_evolution_events_validated"] = en
     c = ck.cov["conformance"]
     c["gp_model_states"] = res.distinct
     c["gp_genomes_replayed"] = summ.get("cases", 0)
@@ -75,5 +104,7 @@ def replay(ck, obj):
             if r.get("kind") == "mismatch":
                 ck.violation(f"replay:gp:{r['on']}", f"the real pipeline gave {json.dumps(r['observed'])[:900]}",
                              {"kind": "gp-replay", "case": obj["case"]})
+    elif obj["regen"].get("gpevo"):
+        evolution(ck, 1, first=obj["regen"]["run"], tag="gp-evo-one")
     else:
         trace(ck, 1, first=obj["regen"]["run"], tag="gp-one")
